@@ -90,7 +90,7 @@ def mixed_blocks(rng, defn, ninst, ndev):
 
 
 def gen_cases(rng, tier):
-    n = 60 if tier == 'quick' else 900
+    n = 60 if tier == 'quick' else 8000
     cases = []
     for i in range(n):
         d = g.gen_definition(rng, rng.choice([1, 2, 3, 3, 4]))
